@@ -84,6 +84,11 @@ def make_cases(tier, seed, n_random=None, maxlen=None):
     from fractions import Fraction as F_
     pal4 = type(doms[0][1])("N0", frozenset("abcd"), [(F_(22, 100), "N0", (t, "N0", t)) for t in "abcd"] + [(F_(12, 100), "N0", ())])
     cases.append(dict(name="palindrome4", g=pal4, sr="Float", rename="id", order=None, maxlen=1, part="all"))
+    # a block below the start symbol that uses up the whole default budget (geometric ratio 0.99982): it is abandoned a hair short of
+    # its fixed point and the blocks above it must still be evaluated (seeded changes C08-9 / C03-12)
+    slow = type(doms[0][1])("N0", frozenset("abcd"), [(F_(1), "N0", ("N1", "b")), (F_(1), "N0", ("N2", "c")), (F_(1, 2), "N2", ("N1", "N1")),
+                                                    (F_(1, 2), "N2", ("d",)), (F_(99982, 100000), "N1", ("a", "N1")), (F_(18, 100000), "N1", ("a",))])
+    cases.append(dict(name="slow_lower_block", g=slow, sr="Float", rename="id", order=None, maxlen=1, part="prefix"))
     return cases
 
 
